@@ -259,6 +259,7 @@ func lemmaTickMonotone(intervalStart uint64, intervalsPerDay uint32, t1, t2 uint
 
 //@ func (*WALFileType).Replay
 //@ props C06 C05 C01 C04 C03 C34 C35
+//@ marks #replayed: (result == nil && !dryRun) ==> replayedOK(wf)
 //@ assumepre executor.ParseTGData.hdr "A-WAL: a checksum-valid TG frame was produced by serializeTG (md5 collision-freeness; no adversary forging checksums)"
 //@ assumepre executor.ParseTGData.count "A-WAL"
 //@ assumepre executor.ParseTGData.fits "A-WAL"
@@ -382,3 +383,40 @@ func lemmaTickMonotone(intervalStart uint64, intervalsPerDay uint32, t1, t2 uint
 //@ option noimplicit
 //@ option abstract channel
 //@ exit #flushedOrAcked: flushAt > old(clock) || recvCount > old(recvCount)
+
+// ---------------------------------------------------------------------------------------------
+// C34: old WAL files are replayed before they are deleted; the running instance's own WAL is left alone
+
+// replayedOK(w): Replay(false) returned nil on WAL object w (typestate)
+//@ ghost func replayedOK(w int) bool
+
+//@ func TakeOverWALFile
+//@ props C34
+//@ trusted "opens the file and takes ownership by rewriting its status record (file I/O)"
+//@ modifies mem:executor.WALFileType ghost:filePos ghost:walDirty ghost:walWrites ghost:wLen ghost:wB0 ghost:wHead
+//@ requires #notOwnWAL: !ownWALPath(filePath)
+//@ ensures err == nil ==> wf != nil
+
+// ownWALPath(p): p is the path of the WAL file of the running instance (the cleaner's ignoreFile)
+//@ ghost func ownWALPath(p str) bool
+
+//@ func @/executor/wal.Move
+//@ trusted "os.Rename"
+//@ pure
+//@ requires #notOwnWAL: !ownWALPath(oldFP)
+
+//@ func (*WALFileType).Delete
+//@ props C34
+//@ option noimplicit
+//@ requires #afterSuccessfulReplay: replayedOK(wf)
+//@ assumepre os.Remove.underRoot "the WAL file lives in the root directory (C16 concerns bucket paths)"
+//@ exit #removedOnlyIfReplayed: err == nil ==> !needsReplay
+
+//@ func (*WALCleaner).CleanupOldWALFiles
+//@ props C34 C03
+//@ option noimplicit
+//@ assumes #ignore: forallstr(p, pattern(ownWALPath(p)), ownWALPath(p) == (p == c.ignoreFile))
+//@ assumepre os.Remove.underRoot "WAL files live in the root directory"
+//@ loop 0 invariant #idx: 0 <= iter0 && iter0 <= rangelen
+
+//@ private mem:executor.WALCleaner "a WALCleaner is created and used only by the start-up code; no callee of CleanupOldWALFiles holds a pointer to it"
